@@ -26,8 +26,29 @@ def r1(cx):
     for p in pu:
         cx.check(b.set_dominates([m.bb for m in ma], p.bb), "publish() runs only after this batch was marked applied",
                  "publish-before-mark", p.where())
-    comp = sites(cx, b, "CommitBatch::complete", minimum=2)
+    # the error signal of a failed commit: either the committer completes its own batch with Err, or it records the failure
+    # in the batch (CommitBatch::fail) for whoever dequeues it; both must happen before the slot can be drained
+    comp = [c for c in b.calls if c.bb in b.live and c.names & {"CommitBatch::complete", "CommitBatch::fail"}]
+    if len(comp) < 2:
+        raise AnchorMissing("commit(): %d error-signal site(s) (CommitBatch::complete / CommitBatch::fail), need >= 2" % len(comp))
+    deferred = any(c.names & {"CommitBatch::fail"} for c in comp)
     never_after(cx, b, ma, comp, "error is signalled before the slot can be drained (complete(Err) before mark_applied)")
+    if deferred:
+        # the recorded failure is what the dequeuing thread completes the batch with
+        pbody = cx.f.body("CommitPipeline::publish")
+        for c in sites(cx, pbody, "CommitBatch::complete"):
+            o = origin_of_operand(pbody, c.args[1])
+            oc = [x for x in pbody.calls if x.bb in pbody.live and x.names & {"CommitBatch::outcome"}]
+            uses = o.from_call("CommitBatch::outcome") or (bool(oc) and pbody.set_dominates([x.bb for x in oc], c.bb) and not any(a.get("variant") == "Ok" for a in o.aggs if a.get("adt") == "std::result::Result" and not o.calls))
+            cx.check(uses, "publish() completes a dequeued batch with its recorded outcome", "publish-ignores-recorded-failure", c.where(),
+                     "publish() completes a batch without consulting the failure recorded for it: a failed commit is reported as successful")
+        ob = cx.f.body("CommitBatch::outcome")
+        R, _ = self_field_sites(cx.f, ob, callee_writes="may")
+        errs_ = [1 for i, j, lhs, rv, line in ob.assigns() if rv[0] == "agg" and rv[3] and rv[3].get("variant") == "Err"]
+        cx.check("failure" in R and bool(errs_), "CommitBatch::outcome returns the recorded failure as Err", "outcome-drops-failure", ob.where())
+        fb = cx.f.body("CommitBatch::fail")
+        _, Wf = self_field_sites(cx.f, fb, callee_writes="may")
+        cx.check("failure" in Wf or any(c.primary.endswith("Mutex::lock") for c in fb.calls), "CommitBatch::fail records the error in the batch", "fail-does-not-record", fb.where())
     rb = sites(cx, b, "CommitOracle::rollback", minimum=2)
     for pat, what in (("CommitEnv::write", "WAL write"), ("CommitEnv::apply", "memtable apply")):
         c = sites(cx, b, pat)[0]
@@ -42,7 +63,8 @@ def r1(cx):
         r = feasible_reach(b, err)
         polls = [x for x in b.calls if "oneshot::Receiver" in x.primary and x.primary.endswith("poll")]
         okx = [x for x, k in exits(b) if k == "ok" and x in r]
-        cx.check(not okx and not any(p.bb in r for p in polls), "failed %s: commit() returns an error" % what, "fail-arm-ok|%s" % pat, c.where(),
+        # (with the recorded-failure protocol the failing committer also awaits its receiver and returns what publish() sends)
+        cx.check(not okx and (deferred or not any(p.bb in r for p in polls)), "failed %s: commit() returns an error" % what, "fail-arm-ok|%s" % pat, c.where(),
                  "after a failed %s, commit() can still return success" % what)
         # and apply is not attempted after a failed write
         if pat == "CommitEnv::write":
